@@ -98,6 +98,23 @@ class Setup:
         return lambda: v.encode_finalise(self.out)
 
 
+def order_free(muts):
+    """the removal of a stale partition directory (`rmtree(stale_p<j>)`) touches its objects in directory-scan order, which
+    changes once some entries are gone: a leftover from a killed attempt and the freshly renamed-aside directory are emptied
+    in different orders within one command, while the model has one order parameter per partition (the theorems hold for
+    every order).  Runs of consecutive mutations on stale objects are therefore compared as multisets."""
+    out, run = [], []
+    for m in muts:
+        if m[0] == "set" and str(m[1]).split(":")[0] in ("smeta", "sent"):
+            run.append(m)
+            continue
+        out.extend(sorted(run, key=repr))
+        run = []
+        out.append(m)
+    out.extend(sorted(run, key=repr))
+    return out
+
+
 def oracle_step(ctx, su, history, idx, res):
     """the statement, directly on the real tree after step idx"""
     inp = {"vcf_spec": su.spec, "variants_chunk_size": su.vcs, "partitions": su.nparts, "separator": su.sep,
@@ -214,7 +231,7 @@ def run_history(ctx, su, history, label):
                 ctx.disagree(f"object states after step {idx} ({cmd}, kill={kill}) differ from the model (model, real)", inp,
                              dict(list(diff.items())[:8]), "…")
                 diverged = True
-            elif res == "completed" and model_step_view(m["prog"]) != muts:
+            elif res == "completed" and order_free(model_step_view(m["prog"])) != order_free(muts):
                 mp = model_step_view(m["prog"])
                 k = next((i for i, (a, b) in enumerate(zip(mp, muts)) if a != b), min(len(mp), len(muts)))
                 ctx.disagree(f"mutation sequence of {cmd} differs from the model program at position {k}", inp, mp[k:k + 3], muts[k:k + 3])
